@@ -38,6 +38,10 @@ def t_ints(rng, lvl, u):
     for i in range(rng.randrange(3, 10)):
         n = rng.choice(INT_EDGES) + rng.choice([0, 0, 1, -1, rng.randrange(1000)])
         out.append("i%s_%d = %d" % (u, i, n))
+    # every boundary value, whatever the seed (each 32- / 64-bit and digit-count boundary has had its own defect)
+    out.append("ie%s = [%s]" % (u, ", ".join(str(n) for n in INT_EDGES)))
+    out.append("ien%s = (%s)" % (u, ", ".join(str(-n) for n in INT_EDGES)))
+    out.append("print(ie%s[9], ie%s[12], ien%s[10])" % (u, u, u))
     # ints beyond 4300 decimal digits (3.11+ hosts refuse to print them in decimal), alone and inside every container kind;
     # written in hex so that every compiler accepts the literal
     h = "0x" + "".join(rng.choice("123456789abcdef") for _ in range(3700))
